@@ -109,6 +109,11 @@ def make_jobs(tier):
                 plan.append(("A", _cfg(ts, main, None, 3), ALPHA_FULL, False))
         for ts in wide3[1:3]:
             plan.append(("A", _cfg(ts, True, "refused", 3), ALPHA_FULL, False))
+        # the SAME component object started again after an earlier run (one attempt: joined, then main
+        # raised / main returned / the session left): the new run is judged like a first one
+        for pre in ("main_raises", "main_returns", "leave"):
+            for ts in ([T(W, 2)], [T(W, 1), T(R, 0)]):
+                plan.append(("A", dict(_cfg(ts, True, None, 3), prelude=pre), ALPHA_FULL, False))
         # a 'connectfailure' listener that itself fails: retry decisions are as without it
         for ts in ([T(W, 2)], [T(W, 1), T(R, 0)]):
             for f in ("refused", "never", None):
@@ -153,6 +158,11 @@ def make_jobs(tier):
                          ([T(R, 0), T(W, 1)], True), ([T(W, 0)], True), ([T(W, 0)], False),
                          ([T(R, 1)], True), ([T(R, 1)], False)):
             plan.append(("B", _cfg(ts, main, None, 3), ALPHA_FULL, True))
+        for pre in ("main_raises", "main_returns", "leave", "goodbye"):
+            for ts in ([T(W, 2)], [T(R, 1)], [T(W, 1), T(R, 0)], [T(R, 0), T(W, 2)]):
+                for f in (None, "refused"):
+                    plan.append(("A", dict(_cfg(ts, True, f, 4), prelude=pre), ALPHA_FULL, False))
+            plan.append(("B", dict(_cfg([T(W, 1), T(R, 0)], True, None, 3), prelude=pre), ALPHA_FULL, True))
         for ts in ([T(W, 2)], [T(R, 1)], [T(W, 1), T(R, 0)], [T(R, 0), T(W, 2)]):
             for main in (False, True):
                 for f in ("refused", "never", "always", None):
@@ -207,7 +217,7 @@ def main(ctx):
         ctx.require("stop_" + ph)
     for k in ("exhausted_observed", "success_observed", "fw_tx", "fw_aio",
               "attempts_websocket", "attempts_rawsocket", "fatal_classified", "first_attempt_undelayed",
-              "retry_waits_checked", "wait_at_cap", "jitter_draws", "sessions_with_all_listeners", "failing_listener_reported",
+              "retry_waits_checked", "wait_at_cap", "jitter_draws", "sessions_with_all_listeners", "failing_listener_reported", "restarted_runs",
               "horizon_truncated", "unlimited_retries_configs", "replayed_for_determinism",
               "stop_while_retry_timer", "stop_success_observed", "budget_reset_after_join"):
         ctx.require(k)
@@ -221,7 +231,8 @@ def cfg_id(cfg):
         "+".join("%s%d" % ("ws" if t["type"] == "websocket" else "rs", t["max_retries"])
                  for t in cfg["transports"]),
         "main" if cfg["main"] else "nomain", cfg["is_fatal"], cfg["z"]) + (
-        "|cf=" + cfg["cf"] if cfg.get("cf") else "")
+        "|cf=" + cfg["cf"] if cfg.get("cf") else "") + (
+        "|restarted-after=" + cfg["prelude"] if cfg.get("prelude") else "")
 
 
 def _tt(cfg, idx):
@@ -242,6 +253,9 @@ def judge(cfg, obs, fw, stats=None):
 
     def bump(k, n=1):
         st[k] = st.get(k, 0) + n
+    if obs.get("prelude"):
+        bump("restarted_runs")
+        bump("restarted_after_" + obs["prelude"]["outcome"])
     atts = [a for a in obs["attempts"] if a["outcome"] is not None]
     unplayed = [a for a in obs["attempts"] if a["outcome"] is None][:1]
     mainflag = "main" if cfg["main"] else "nomain"
